@@ -1,3 +1,4 @@
+import GqlProofs.Gen.Accounted
 import GqlProofs.Validate.Compose
 import GqlProofs.Validate.WalkTerm
 /-
@@ -124,3 +125,15 @@ theorem C18_default_names_distinct : (defaultRules.map (·.name)).Nodup := by de
 #print axioms C18_nosuggest_TypeNames
 #print axioms C18_nosuggest_Values
 #print axioms C18_default_names_distinct
+
+/-! ### facts regenerated from /repo's sources on every run (GqlModel/Gen/Facts.lean) -/
+
+/-- The AddRule calls of package rules, in package-initialisation (file name) order, are the
+    model's default rule names: "the default rule set equals the explicit list of all specified rules". -/
+theorem C18_gen_default_rules_agree : Gql.Gen.ruleRegistry = Gql.Validate.defaultRuleNames := by decide
+
+/-- every exported Rule value is one the model knows by name (27 standard + 4 without-suggestions) -/
+theorem C18_gen_rule_vars_known :
+    ∀ n ∈ Gql.Gen.ruleVars, n ∈ Gql.Validate.defaultRuleNames ∨
+      n ∈ ["FieldsOnCorrectTypeWithoutSuggestions", "KnownArgumentNamesWithoutSuggestions",
+           "KnownTypeNamesWithoutSuggestions", "ValuesOfCorrectTypeWithoutSuggestions"] := by decide
